@@ -345,20 +345,24 @@ def rule_alignment(chk):
                detail_bad='the fill loop does not visit every particle', detail_ok='for %s in range(num_particles)' % iv)
     paths = []
 
+    from verif_static import norm as N
+
     def walk(stmts, ev):
         for k, s in enumerate(stmts):
             if isinstance(s, ast.If):
                 rest = stmts[k + 1:]
-                walk(list(s.body) + rest, ev + [('cond', compact(s.test), True)])
-                walk(list(s.orelse) + rest, ev + [('cond', compact(s.test), False)])
+                walk(list(s.body) + rest, ev + [('cond', N.canon(s.test), True, compact(s.test))])
+                walk(list(s.orelse) + rest, ev + [('cond', N.canon(s.test), False, compact(s.test))])
                 return
+            if isinstance(s, ast.Continue):
+                break                      # this iteration ends here
             if isinstance(s, ast.Assign) and isinstance(s.targets[0], ast.Subscript) and compact(s.targets[0].value) == 'index_array.data':
                 ev = ev + [('store', compact(s.targets[0].slice), compact(s.value), s)]
             elif isinstance(s, ast.Assign) and isinstance(s.value, ast.Subscript) and compact(s.value.value) == 'index_array.data':
                 ev = ev + [('load', compact(s.targets[0]), compact(s.value.slice), s)]
             elif isinstance(s, ast.AugAssign):
                 ev = ev + [('inc', compact(s.target), compact(s.value), s)]
-            elif isinstance(s, (ast.For, ast.While, ast.Return, ast.Break, ast.Continue)):
+            elif isinstance(s, (ast.For, ast.While, ast.Return, ast.Break)):
                 raise AnalysisError('align_particles: unexpected control flow in the fill loop')
         paths.append(ev)
     walk(list(loop.body), [])
@@ -367,9 +371,14 @@ def rule_alignment(chk):
         stores = [e for e in ev if e[0] == 'store']
         conds = [(e[1], e[2]) for e in ev if e[0] == 'cond']
         incs = dict((e[1], e[2]) for e in ev if e[0] == 'inc')
-        label = ' and '.join(('' if v else 'not ') + c for c, v in conds) or 'always'
+
+        def implied(eq_text, ne_text):
+            """the path conditions say eq_text holds (the test itself taken, or its negation refused)"""
+            return (N.canon(eq_text), True) in conds or (N.canon(ne_text), False) in conds
+        local = implied('tag_arr.data[%s]==Local' % iv, 'tag_arr.data[%s]!=Local' % iv)
+        # label by what the path means, not by how the tests are spelled
+        label = 'Local' if local else 'not Local'
         n += 1
-        local = ('tag_arr.data[%s]==Local' % iv, True) in conds
         at_i = [e for e in stores if e[1] == iv]
         other = [e for e in stores if e[1] != iv]
         node = stores[-1][3] if stores else loop
@@ -379,11 +388,12 @@ def rule_alignment(chk):
             j = other[0][1]
             order = [e for e in ev if e[0] in ('load', 'store')]
             ld = [e for e in order if e[0] == 'load' and e[2] == j and e[1] == at_i[0][2]]
-            ok = bool(ld) and order.index(ld[0]) < order.index(other[0]) and (('%s!=%s' % (iv, j), True) in conds or ('%s==%s' % (iv, j), False) in conds)
+            ok = bool(ld) and order.index(ld[0]) < order.index(other[0]) and implied('%s!=%s' % (iv, j), '%s==%s' % (iv, j))
             why = 'index[%s] = %s; index[%s] = the value displaced from slot %s (guarded by %s != %s)' % (j, iv, iv, j, iv, j)
             node = at_i[0][3]
         else:
             ok, why = False, ''
+        label = label + (', displaced' if other else ', in place') if local else label
         chk.decide(ok, 'alignment-is-a-permutation', 'path:%s' % label, node=node, file=PA, func=who,
                    detail_bad='on this path the stores %s do not fill slot %s with %s itself or with the value previously held by the slot that receives %s: the index array stops being a '
                               'permutation, so c_align_array duplicates one particle and drops another' % ([(e[1], e[2]) for e in stores], iv, iv, iv), detail_ok=why)
